@@ -2,58 +2,77 @@
    subscribes.  Statements only: each theorem is closed by [exact], pinned by
    [Check] and followed by [Print Assumptions].  [run_sched c Fixed (init progs) sched]
    is the state after the threads [progs] have been granted the atomic steps
-   listed in [sched]; every interleaving is such a schedule. *)
+   listed in [sched]; every interleaving is such a schedule.  Subscriptions are
+   numbered; [g_ph g j = 1] says subscription [j] is still in the subscriber list. *)
 From Coq Require Import List NArith Bool.
 From RB Require Import Base.Val Model.Subscribe Spec.SubscribeSpec Proofs.Subscribe.
 Import ListNotations.
 Open Scope N_scope.
 
-(* (1) For every interleaving of a subscribe call with the sessions' inserts,
-   removes, session-downs, soft resets and policy changes (some thread calls
-   subscribe at some point of its program): once every thread has finished, the
-   subscriber's fold of what it received is exactly the pre-policy and the
-   post-policy Adj-RIB-In. *)
+(* (1) For every interleaving of the subscribe calls (any number of subscriptions,
+   unsubscribe and resubscribe included) with the sessions' inserts, removes,
+   session-downs with and without graceful restart, stale purges, drop_families,
+   soft resets, policy changes and reachability reports: once every thread has
+   finished, a subscription that is still registered holds, per key, exactly the
+   pre-policy and the post-policy Adj-RIB-In -- or nothing, for a path the RIB
+   retains stale after the PeerDown of its peer. *)
 Theorem subscriber_fold_eq_rib :
-  forall (c : cfg) (progs : list (list op)) (sched : list nat) (i : nat),
-    wf_progs progs -> In Subscribe (nth i progs []) ->
+  forall (c : cfg) (progs : list (list op)) (sched : list nat) (i j : nat),
+    wf_progs progs -> In (Subscribe j) (nth i progs []) ->
     let s := run_sched c Fixed (init progs) sched in
-    all_done s ->
-    forall k, fold_pre (g_evs (s_g s)) k = rib_pre (s_g s) k /\
-              fold_post (g_evs (s_g s)) k = rib_post (s_g s) k.
-Proof. exact C18_subscriber_fold_eq_rib_sub. Qed.
+    all_done s -> g_ph (s_g s) j = 1 ->
+    forall k, holds_exactly (s_g s) j false k /\ holds_exactly (s_g s) j true k.
+Proof. exact C18_subscriber_fold_eq_rib. Qed.
 Check subscriber_fold_eq_rib :
-  forall (c : cfg) (progs : list (list op)) (sched : list nat) (i : nat),
-    wf_progs progs -> In Subscribe (nth i progs []) ->
+  forall (c : cfg) (progs : list (list op)) (sched : list nat) (i j : nat),
+    wf_progs progs -> In (Subscribe j) (nth i progs []) ->
     let s := run_sched c Fixed (init progs) sched in
-    all_done s ->
-    forall k, fold_pre (g_evs (s_g s)) k = rib_pre (s_g s) k /\
-              fold_post (g_evs (s_g s)) k = rib_post (s_g s) k.
+    all_done s -> g_ph (s_g s) j = 1 ->
+    forall k, holds_exactly (s_g s) j false k /\ holds_exactly (s_g s) j true k.
 Print Assumptions subscriber_fold_eq_rib.
 
-(* (2) Per (peer, prefix, path id) the last event delivered (a PeerDown of the
-   peer counts as a withdrawal) is the current state; a key never mentioned is
-   not in the RIB. *)
+(* (1') ... hence exactly the two views when no path is retained stale. *)
+Theorem subscriber_fold_eq_rib_no_stale :
+  forall (c : cfg) (progs : list (list op)) (sched : list nat) (i j : nat),
+    wf_progs progs -> In (Subscribe j) (nth i progs []) ->
+    let s := run_sched c Fixed (init progs) sched in
+    all_done s -> g_ph (s_g s) j = 1 -> (forall k, ~ stale_retained (s_g s) k) ->
+    forall k, fold_pre (g_evs (s_g s) j) k = rib_pre (s_g s) k /\
+              fold_post (g_evs (s_g s) j) k = rib_post (s_g s) k.
+Proof. exact C18_subscriber_fold_eq_rib_no_stale. Qed.
+Check subscriber_fold_eq_rib_no_stale :
+  forall (c : cfg) (progs : list (list op)) (sched : list nat) (i j : nat),
+    wf_progs progs -> In (Subscribe j) (nth i progs []) ->
+    let s := run_sched c Fixed (init progs) sched in
+    all_done s -> g_ph (s_g s) j = 1 -> (forall k, ~ stale_retained (s_g s) k) ->
+    forall k, fold_pre (g_evs (s_g s) j) k = rib_pre (s_g s) k /\
+              fold_post (g_evs (s_g s) j) k = rib_post (s_g s) k.
+Print Assumptions subscriber_fold_eq_rib_no_stale.
+
+(* (2) Per (peer, prefix, path id) and kind, the last event delivered (a PeerDown of
+   the peer counts as a withdrawal) is the current state, up to stale retention; a
+   key never mentioned is not in the RIB (or is retained stale). *)
 Theorem last_event_is_current :
-  forall (c : cfg) (progs : list (list op)) (sched : list nat) (i : nat),
-    wf_progs progs -> In Subscribe (nth i progs []) ->
+  forall (c : cfg) (progs : list (list op)) (sched : list nat) (i j : nat),
+    wf_progs progs -> In (Subscribe j) (nth i progs []) ->
     let s := run_sched c Fixed (init progs) sched in
-    all_done s ->
-    forall k,
-      (forall x, last_touch false k (g_evs (s_g s)) = Some x -> rib_pre (s_g s) k = x) /\
-      (last_touch false k (g_evs (s_g s)) = None -> rib_pre (s_g s) k = None) /\
-      (forall x, last_touch true k (g_evs (s_g s)) = Some x -> rib_post (s_g s) k = x) /\
-      (last_touch true k (g_evs (s_g s)) = None -> rib_post (s_g s) k = None).
-Proof. exact C18_last_event_is_current_sub. Qed.
+    all_done s -> g_ph (s_g s) j = 1 ->
+    forall b k,
+      (forall x, last_touch b k (g_evs (s_g s) j) = Some x ->
+                 ribv b (g_rib (s_g s)) k = x \/ (stale_retained (s_g s) k /\ x = None)) /\
+      (last_touch b k (g_evs (s_g s) j) = None ->
+                 ribv b (g_rib (s_g s)) k = None \/ stale_retained (s_g s) k).
+Proof. exact C18_last_event_is_current. Qed.
 Check last_event_is_current :
-  forall (c : cfg) (progs : list (list op)) (sched : list nat) (i : nat),
-    wf_progs progs -> In Subscribe (nth i progs []) ->
+  forall (c : cfg) (progs : list (list op)) (sched : list nat) (i j : nat),
+    wf_progs progs -> In (Subscribe j) (nth i progs []) ->
     let s := run_sched c Fixed (init progs) sched in
-    all_done s ->
-    forall k,
-      (forall x, last_touch false k (g_evs (s_g s)) = Some x -> rib_pre (s_g s) k = x) /\
-      (last_touch false k (g_evs (s_g s)) = None -> rib_pre (s_g s) k = None) /\
-      (forall x, last_touch true k (g_evs (s_g s)) = Some x -> rib_post (s_g s) k = x) /\
-      (last_touch true k (g_evs (s_g s)) = None -> rib_post (s_g s) k = None).
+    all_done s -> g_ph (s_g s) j = 1 ->
+    forall b k,
+      (forall x, last_touch b k (g_evs (s_g s) j) = Some x ->
+                 ribv b (g_rib (s_g s)) k = x \/ (stale_retained (s_g s) k /\ x = None)) /\
+      (last_touch b k (g_evs (s_g s) j) = None ->
+                 ribv b (g_rib (s_g s)) k = None \/ stale_retained (s_g s) k).
 Print Assumptions last_event_is_current.
 
 (* (3) Whatever is received, the PeerDown events that track_peer_down lets
@@ -66,35 +85,44 @@ Check peer_down_only_after_up :
   forall (sent : list N) (evs : list ev), paired sent (forward sent evs).
 Print Assumptions peer_down_only_after_up.
 
-(* Witnesses kept from before the fix commits: with soft_reset_in loading the
-   subscriber list before the shard loop (C18-2), resp. with a refused insert
-   left announced (C18-1), statement (1) fails ([Legacy] behaviour). *)
+(* Witnesses kept from before the fix commits ([Legacy] behaviour): soft_reset_in
+   loading the subscriber list before the shard loop (C18-2), a refused insert left
+   announced (C18-1), purges that removed retained paths silently (C18-3). *)
 Theorem subscriber_fold_eq_rib_legacy_refuted :
-  exists (c : cfg) (progs : list (list op)) (sched : list nat) (k : key),
-    wf_progs progs /\
+  exists (c : cfg) (progs : list (list op)) (sched : list nat) (i j : nat) (k : key),
+    wf_progs progs /\ In (Subscribe j) (nth i progs []) /\
     let s := run_sched c Legacy (init progs) sched in
-    all_done s /\ 2 <= g_walk (s_g s) /\
-    fold_post (g_evs (s_g s)) k <> rib_post (s_g s) k.
+    all_done s /\ g_ph (s_g s) j = 1 /\ ~ holds_exactly (s_g s) j true k.
 Proof. exact C18_subscriber_fold_eq_rib_legacy_refuted. Qed.
 Check subscriber_fold_eq_rib_legacy_refuted :
-  exists (c : cfg) (progs : list (list op)) (sched : list nat) (k : key),
-    wf_progs progs /\
+  exists (c : cfg) (progs : list (list op)) (sched : list nat) (i j : nat) (k : key),
+    wf_progs progs /\ In (Subscribe j) (nth i progs []) /\
     let s := run_sched c Legacy (init progs) sched in
-    all_done s /\ 2 <= g_walk (s_g s) /\
-    fold_post (g_evs (s_g s)) k <> rib_post (s_g s) k.
+    all_done s /\ g_ph (s_g s) j = 1 /\ ~ holds_exactly (s_g s) j true k.
 Print Assumptions subscriber_fold_eq_rib_legacy_refuted.
 
 Theorem subscriber_fold_eq_rib_legacy_limit_refuted :
-  exists (c : cfg) (progs : list (list op)) (sched : list nat) (k : key),
-    wf_progs progs /\
+  exists (c : cfg) (progs : list (list op)) (sched : list nat) (i j : nat) (k : key),
+    wf_progs progs /\ In (Subscribe j) (nth i progs []) /\
     let s := run_sched c Legacy (init progs) sched in
-    all_done s /\ 2 <= g_walk (s_g s) /\
-    fold_pre (g_evs (s_g s)) k <> rib_pre (s_g s) k.
+    all_done s /\ g_ph (s_g s) j = 1 /\ ~ holds_exactly (s_g s) j false k.
 Proof. exact C18_subscriber_fold_eq_rib_legacy_limit_refuted. Qed.
 Check subscriber_fold_eq_rib_legacy_limit_refuted :
-  exists (c : cfg) (progs : list (list op)) (sched : list nat) (k : key),
-    wf_progs progs /\
+  exists (c : cfg) (progs : list (list op)) (sched : list nat) (i j : nat) (k : key),
+    wf_progs progs /\ In (Subscribe j) (nth i progs []) /\
     let s := run_sched c Legacy (init progs) sched in
-    all_done s /\ 2 <= g_walk (s_g s) /\
-    fold_pre (g_evs (s_g s)) k <> rib_pre (s_g s) k.
+    all_done s /\ g_ph (s_g s) j = 1 /\ ~ holds_exactly (s_g s) j false k.
 Print Assumptions subscriber_fold_eq_rib_legacy_limit_refuted.
+
+Theorem subscriber_fold_eq_rib_legacy_purge_refuted :
+  exists (c : cfg) (progs : list (list op)) (sched : list nat) (i j : nat) (k : key),
+    wf_progs progs /\ In (Subscribe j) (nth i progs []) /\
+    let s := run_sched c Legacy (init progs) sched in
+    all_done s /\ g_ph (s_g s) j = 1 /\ ~ holds_exactly (s_g s) j false k.
+Proof. exact C18_subscriber_fold_eq_rib_legacy_purge_refuted. Qed.
+Check subscriber_fold_eq_rib_legacy_purge_refuted :
+  exists (c : cfg) (progs : list (list op)) (sched : list nat) (i j : nat) (k : key),
+    wf_progs progs /\ In (Subscribe j) (nth i progs []) /\
+    let s := run_sched c Legacy (init progs) sched in
+    all_done s /\ g_ph (s_g s) j = 1 /\ ~ holds_exactly (s_g s) j false k.
+Print Assumptions subscriber_fold_eq_rib_legacy_purge_refuted.
